@@ -1,7 +1,7 @@
 /-
 C07 — standard-library codecs agree with independent implementations on valid data.
-Part 1: Adler-32 (std/adler32).  CRC / SHA-256 / spec decoders: Props/C07Crc.lean,
-Props/C07Sha.lean, Props/C07Spec.lean.
+Part 1: Adler-32 (std/adler32).  CRC tables + byte-wise loop: Props/C07Crc.lean; slicing loops: Props/C07Slice.lean;
+SHA-256: Props/C07Sha.lean; open statements about the decoders: Props/C07Spec.lean.
 
 The model (`Model/StdHash.lean`) mirrors `hasher.up` with the chunk length and the
 modulus REGENERATED from the .wuffs source (`Gen/C07_Tables.lean`); the theorems below
